@@ -7,6 +7,9 @@ segments is `component_index().mapv(|i| q[i])` (bulk partial densities in the re
 quantity by one uniform number — "the partial molar volume is the molar volume" — which is exact for pure fluids and for ideal
 bulk phases and wrong for every non-ideal mixture (seed C19j: dN/dT of methane in a methane/butane pore 8.7 % off).
 
+(The floor on the number of sites is 2, not today's 5: four of the five sites spell out the same bulk-density gather and a helper
+that factors them out — agent neutral `VC18-n1` — is behaviour-preserving.)
+
 Rule: in `feos_dft`, every closure handed to `mapv` / `map` / `mapv_into` whose receiver derives from the result of
 `component_index()` reads its argument.  (What is indexed with it is R18's obligation; the values are numerical.)"""
 from cfg import Defs
@@ -113,6 +116,6 @@ def run(F):
                 r.fail("gather|%s|index-ignored" % fn.split("::")[-1], t["span"],
                        "%s: the closure mapped over component_index() does not read its argument — every segment receives the same "
                        "value instead of the value of its own component (exact for pure fluids only)" % fn)
-    r.floor("closures mapped over component_index() in feos_dft", n, 5)
+    r.floor("closures mapped over component_index() in feos_dft", n, 2)
     r.exhaustive = True
     return [r]
